@@ -2637,10 +2637,12 @@ def np_einsum(interp, name, args, kw, st, node):
             elif len(ci) == 2 and len(gone) == 1:
                 # sum_j A_ij B_ij = diag(A B^T)_i ; sum_i A_ij B_ij = diag(A^T B)_j
                 # (written as a sum of elementwise products: the reductions know how to go inside merged pair axes)
+                # a matrix product among the operands keeps the quadratic-form spelling diag(A B^T)
+                prod_ = any(isinstance(z.term, Term) and z.term.op == "matmul" for z in (cur, b))
                 if gone[0] == ci[1]:
-                    cur, ci = call_external(interp, "numpy.sum", [had(cur, b)], {"axis": vconst(1)}, st, node), ci[0]
+                    cur, ci = (np_diag(interp, "numpy.diagonal", [mm(cur, tr(b))], {}, st, node) if prod_ else call_external(interp, "numpy.sum", [had(cur, b)], {"axis": vconst(1)}, st, node)), ci[0]
                 else:
-                    cur, ci = call_external(interp, "numpy.sum", [had(cur, b)], {"axis": vconst(0)}, st, node), ci[1]
+                    cur, ci = (np_diag(interp, "numpy.diagonal", [mm(tr(cur), b)], {}, st, node) if prod_ else call_external(interp, "numpy.sum", [had(cur, b)], {"axis": vconst(0)}, st, node)), ci[1]
             elif len(ci) == 1 and len(gone) == 1:
                 cur, ci = mm(cur, b), ""
             else:
